@@ -280,7 +280,7 @@ func (rs reclaimsim) Run(c *Case, dir string) *Outcome {
 			}
 			if how == 1 {
 				disk.Fired, disk.Calls = "", 0
-				disk.Plan = &sim.FaultPlan{K: t.Intn(8), Kind: []string{"eio", "short", "enospc"}[t.Intn(3)]}
+				disk.Plan = &sim.FaultPlan{K: t.Intn(8), Kind: []string{"eio", "short", "enospc", "short72"}[t.Intn(4)]}
 				disk.Arm(true)
 			}
 			delNested := t.Chance(1, 3)
